@@ -411,6 +411,13 @@ def build(tier, repo):
                 loop = re.search(r"for\s*\([^)]*\)\s*\{(?:[^{}]|\{[^{}]*\})*\b%s\s*\[[^\]]*\]\s*=\s*(?:\(int\)\s*)?MAT_BUFI\s*\(\s*(\w+)\s*\)" % re.escape(P), txt)
                 tested = loop is not None and re.search(r"if\s*\([^;{]*MAT_BUFI\s*\(\s*%s\s*\)\s*\[[^\]]*\]\s*(?:<|>|==)" % re.escape(loop.group(1)), loop.group(0)) \
                     and re.search(r"PY_ERR|err_|return", loop.group(0))
+                if not tested:
+                    # the same loop with walking pointers: `while (src < end) { if (*src < 1 || *src > n) <error>; *dst++ = *src++; }`
+                    for d_ in pal:
+                        for s_ in mal:
+                            lp2 = re.search(r"(?:while|for)\s*\([^)]*\)\s*\{(?:[^{}]|\{[^{}]*\})*\*\s*%s\s*(?:\+\+)?\s*=\s*(?:\(int\)\s*)?\*\s*%s\b" % (re.escape(d_), re.escape(s_)), txt)
+                            if lp2 and re.search(r"if\s*\([^;{]*\*\s*%s\s*(?:<|>|==)" % re.escape(s_), lp2.group(0)) and re.search(r"PY_ERR|err_|return", lp2.group(0)):
+                                tested = True
                 k2 = "%s:%s entries are range-tested before %s" % (fn, P, routines[0])
                 if tested:
                     r7.ok(k2, where)
